@@ -657,6 +657,54 @@ alarming("auth-decode-helper",
 			return
 		}"""),
   ("conn.go", "func decodeSASLResponse(s string) ([]byte, error) {", "// decodeResponse decodes a SASL response line; it answers 454 and reports false when the line is not base64.\nfunc (c *Conn) decodeResponse(encoded string) ([]byte, bool) {\n	response, err := decodeSASLResponse(encoded)\n	if err != nil {\n		c.writeResponse(454, EnhancedCode{4, 7, 0}, \"Invalid base64 data\")\n		return nil, false\n	}\n	return response, true\n}\n\nfunc decodeSASLResponse(s string) ([]byte, error) {"))
+variant("bdat-guard-order-swapped",
+  ("conn.go", """	if !c.fromReceived || len(c.recipients) == 0 {
+		// RFC 3030: the chunk of a refused BDAT must be discarded, it""", """	if len(c.recipients) == 0 || !c.fromReceived {
+		// RFC 3030: the chunk of a refused BDAT must be discarded, it"""))
+variant("bdat-limit-gt-zero",
+  ("conn.go", "	if c.server.MaxMessageBytes != 0 && c.bytesReceived+int64(size) > c.server.MaxMessageBytes {", "	if c.server.MaxMessageBytes > 0 && c.bytesReceived+int64(size) > c.server.MaxMessageBytes {"))
+variant("rcptmax-local",
+  ("conn.go", """	if c.server.MaxRecipients > 0 && len(c.recipients) >= c.server.MaxRecipients {""", """	if max := c.server.MaxRecipients; max > 0 && len(c.recipients) >= max {"""))
+variant("lmtp-flavour-single-test",
+  ("conn.go", """		if c.server.LMTP && !lmtp {
+			c.writeResponse(500, EnhancedCode{5, 5, 1}, "This is a LMTP server, use LHLO")
+			return
+		}
+		if !c.server.LMTP && lmtp {
+			c.writeResponse(500, EnhancedCode{5, 5, 1}, "This is not a LMTP server")
+			return
+		}""", """		if c.server.LMTP != lmtp {
+			if c.server.LMTP {
+				c.writeResponse(500, EnhancedCode{5, 5, 1}, "This is a LMTP server, use LHLO")
+			} else {
+				c.writeResponse(500, EnhancedCode{5, 5, 1}, "This is not a LMTP server")
+			}
+			return
+		}"""))
+variant("budget-le-minus-one",
+  ("data.go", """	if r.limited {
+		if r.n < 0 {
+			return 0, ErrDataTooLarge
+		}""", """	if r.limited {
+		if r.n <= -1 {
+			return 0, ErrDataTooLarge
+		}"""))
+variant("continuation-loop-range",
+  ("conn.go", """	for i := 0; i < lastLineIndex; i++ {
+		// RFC 2034: the enhanced code is repeated on every line.
+		if enhCode == NoEnhancedCode {
+			c.text.PrintfLine("%d-%v", code, text[i])
+		} else {
+			c.text.PrintfLine("%d-%v.%v.%v %v", code, enhCode[0], enhCode[1], enhCode[2], text[i])
+		}
+	}""", """	for _, line := range text[:lastLineIndex] {
+		// RFC 2034: the enhanced code is repeated on every line.
+		if enhCode == NoEnhancedCode {
+			c.text.PrintfLine("%d-%v", code, line)
+		} else {
+			c.text.PrintfLine("%d-%v.%v.%v %v", code, enhCode[0], enhCode[1], enhCode[2], line)
+		}
+	}"""))
 if sys.argv[1:] == ['--export']:
     out = [{"id": "benign-" + n, "edits": [{"file": f, "old": o, "new": w} for f, o, w in V[n]]} for n in V]
     json.dump(out, open('/verif/liveness/benign.json', 'w'), indent=1)
